@@ -176,6 +176,7 @@ def run_config(chk, config):
         # version nibble == 2
         q, r = engr.divmod_const(s, Lin.sym(fsym), 1 << f["version_shift"])
         q2, r2 = engr.divmod_const(s, q, 1 << f["version_bits"])
+        layout.canonical_value(engr, s, r2)        # every way of carving out these bits denotes the same value
         if not engr.ent(s, c_eq(r2, Lin.const(f["version"]))):
             bad.append("%s accepted without requiring version %d" % (kind, f["version"]))
         if kind == "Data":
